@@ -301,9 +301,11 @@ class MonteCarloNoise:
             op = copy.deepcopy(op)
             is_controlled = False
             if isinstance(op, ops.OneQubitGateWrapper):
-                op_type_seq = [type(gate) for gate in op.unwrap()]
+                # the noise is drawn gate by gate in the order the gates are applied (the reverse of op.operations)
+                # and stored in the order of op.operations, which is how unwrap() pairs noise with gates
+                op_type_seq = op.operations[::-1]
                 noise_list = self._find_wrapped_noise(op_type_seq, op.reg_type)
-                op.noise = noise_list
+                op.noise = noise_list[::-1]
                 noisy_ops.append(op)
             else:
                 if isinstance(
